@@ -25,7 +25,8 @@ EXPLANATION = ("Proved: the bag partition and the self-comparison law for any ma
                "reflexivity. Full soundness w.r.t. the original (un-augmented) graphs is checked against an "
                "exhaustive bijection oracle, not proved.")
 ASSUMPTIONS = [
-    "predicates in the modelled class are already normalised (lower-case, no _rel suffix, no quotes)",
+    "predicate.normalize (quotes, _rel suffix, letter case) is applied by the harness before a structure is "
+    "given to the model; other spellings of the same predicates are generated and must not change the verdict",
     "structures without parallel constraints (an hcons/icons edge may overwrite an argument edge in the graph)",
     "top and index are not part of the compared structure (as in the implementation and the property text)",
 ]
@@ -70,9 +71,35 @@ def _rename(rng, m):
           "hcons": [[f[a], rel, f[b]] for a, rel, b in m["hcons"]],
           "icons": [[f[a], rel, f[b]] for a, rel, b in m["icons"]],
           "vars": [[f[k], list(v)] for k, v in m["vars"]]}
+    # other spellings of the same predicates (quotes, the _rel suffix, letter case)
+    if rng.random() < 0.25:
+        for r in m2["rels"]:
+            k = rng.random()
+            if k < 0.3:
+                r["pred"] = r["pred"] + "_rel"
+            elif k < 0.5:
+                r["pred"] = r["pred"].upper()
+            elif k < 0.65:
+                r["pred"] = '"%s_rel"' % r["pred"]
     rng.shuffle(m2["rels"])
     rng.shuffle(m2["hcons"])
     rng.shuffle(m2["vars"])
+    return m2
+
+
+def _norm_pred(p):
+    """the conventional form of a predicate symbol: no quotes, no _rel suffix, lower case"""
+    if len(p) >= 2 and p[0] == p[-1] == '"':
+        p = p[1:-1]
+    p = p.lstrip("'")
+    if p.lower().endswith("_rel"):
+        p = p[:-4]
+    return p.lower()
+
+
+def _norm_preds(m):
+    m2 = dict(m)
+    m2["rels"] = [dict(r, pred=_norm_pred(r["pred"])) for r in m["rels"]]
     return m2
 
 
@@ -269,7 +296,7 @@ def _brute_iso(m1, m2, props):
 
     def ep_sig(r):
         d = dict(map(tuple, r["args"]))
-        return (r["pred"].lower(), d.get("CARG"), tuple(sorted(k for k in d if k != "CARG")))
+        return (_norm_pred(r["pred"]), d.get("CARG"), tuple(sorted(k for k in d if k != "CARG")))
 
     def extend(f, inv, a, b):
         if a in f:
@@ -359,6 +386,7 @@ def coq_case(c, o):
     if "exc" in o:
         raise ValueError("exception")
     if c["k"] == "iso":
-        return app("CIso", mc.coq_mrs(c["m1"]), mc.coq_mrs(c["m2"]), cbool(c["props"]), cbool(o["v"]))
-    return app("CBags", clist(c["ms"], mc.coq_mrs), clist(c["test"], cnat), clist(c["gold"], cnat),
+        return app("CIso", mc.coq_mrs(_norm_preds(c["m1"])), mc.coq_mrs(_norm_preds(c["m2"])), cbool(c["props"]),
+                   cbool(o["v"]))
+    return app("CBags", clist(c["ms"], lambda m: mc.coq_mrs(_norm_preds(m))), clist(c["test"], cnat), clist(c["gold"], cnat),
                cbool(c["props"]), cnat(o["u"]), cnat(o["s"]), cnat(o["g"]))
